@@ -464,7 +464,13 @@ class Circuit:
                 and blk.init_timeout > 0.0]
         if start_tasks:
             self.log_debug("Initializing async sequential blocks")
-            await self._run_tasks("async init", start_tasks)
+            try:
+                await self._run_tasks("async init", start_tasks)
+            finally:
+                # when the simulation is being stopped during the initialization, only
+                # the task just awaited gets cancelled; do not leave the others running
+                for _blk, task, _timeout in start_tasks:
+                    task.cancel()
 
     @staticmethod
     def init_sblock(blk: block.SBlock, full: bool) -> None:
